@@ -55,6 +55,9 @@ THEOREMS = {
         "Shroud.Splicer.witness_newline",
         "Shroud.Splicer.witness_cr",
         "Shroud.Splicer.protect_noNL",
+        "Shroud.Splicer.wrapNs_names",
+        "Shroud.Splicer.wrapKids_names",
+        "Shroud.Splicer.wrap_namespace_discipline",
         "Shroud.Splicer.carriage_unrestricted_false",
         "Shroud.Splicer.outside_ignored",
         "Shroud.Splicer.outside_ignored_tail",
@@ -491,6 +494,77 @@ def enc_main_case(cmd, dirs, yaml_entries, code):
     return "mw " + " ".join(toks)
 
 
+# ------------------------------------------------------------------ tie of the emitters' stack-operation sequences
+def record_generation(tmp, k, doc):
+    """Run a real generation in-process with the four splicer-stack methods of WrapperMixin wrapped by recorders.
+    -> {instance: {"ops": [...], "created": [full names], "path": final splicer_path, "dict": final dictionary}} or None"""
+    import yaml
+    from shroud import util
+    from tools import shroudrun
+    wd = os.path.join(tmp, "seq%d" % k)
+    os.makedirs(wd)
+    ypath = os.path.join(wd, "%s.yaml" % doc["library"])
+    with open(ypath, "w") as fp:
+        yaml.safe_dump(doc, fp, default_flow_style=False, sort_keys=False, width=10000)
+    rec = {}
+    M = util.WrapperMixin
+    saved = (M._push_splicer, M._pop_splicer, M._update_splicer_top, M._create_splicer)
+
+    def slot(self):
+        return rec.setdefault(id(self), {"cls": type(self).__name__, "ops": [], "created": [], "self": self})
+
+    def push(self, name):
+        slot(self)["ops"].append(("push", name))
+        return saved[0](self, name)
+
+    def pop(self, name):
+        slot(self)["ops"].append(("pop",))
+        return saved[1](self, name)
+
+    def upd(self, name):
+        slot(self)["ops"].append(("upd", name))
+        return saved[2](self, name)
+
+    def create(self, name, out, default=None, force=None):
+        sl = slot(self)
+        sl["ops"].append(("cr", name, None, None))
+        sl["created"].append(self.splicer_path + name)
+        return saved[3](self, name, out, default, force)
+
+    M._push_splicer, M._pop_splicer, M._update_splicer_top, M._create_splicer = push, pop, upd, create
+    try:
+        cfg, exc, _o = shroudrun.run_inproc([ypath], wd, options=["debug_testsuite=true"])
+    finally:
+        M._push_splicer, M._pop_splicer, M._update_splicer_top, M._create_splicer = saved
+    common.rmtree(wd)
+    if exc is not None:
+        return None
+    out = {}
+    for sl in rec.values():
+        w = sl["self"]
+        out[sl["cls"]] = {"ops": sl["ops"], "created": sl["created"], "path": w.splicer_path,
+                          "dict": canon_dict(enc_dict(flatten(w.splicers)))}
+    return out
+
+
+def seq_request(ops):
+    return "ws 1 %s {} 72 0 %s %s %s" % (common.enc("C"), common.enc("    "), common.enc("&"), " ".join(enc_op(o) for o in ops))
+
+
+def seq_expected(r_):
+    lines = []
+    for n in r_["created"]:
+        lines += ["C splicer begin " + n, "C splicer end " + n]
+    return "ok %s %s %s" % (common.enc(r_["path"]), r_["dict"], common.encs(lines))
+
+
+def canon_seq(resp):
+    if not resp.startswith("ok "):
+        return resp
+    t = resp.split(" ")
+    return "ok %s %s %s" % (t[2], canon_dict(t[3]), t[5])
+
+
 # ------------------------------------------------------------------ tie
 def tie(ctx, ok, tmp):
     thorough = ctx.tier == "thorough"
@@ -542,6 +616,27 @@ def tie(ctx, ok, tmp):
         add("ws %d %s %s %d %d %s %s %s" % (1 if show else 0, common.enc(comment), enc_dict(flatten(d0)), ll, ind,
                                             common.enc(sp), common.enc(cont), " ".join(enc_op(o) for o in ops)),
             real_ws(show, comment, d0, ll, ind, sp, cont, ops), canon_ws, "ws")
+    # stack-operation sequences of real generations (generated libraries, nested namespaces included)
+    from tools.gen import libgen
+    seq_stats = {"libraries": 0, "wrappers": 0, "ops": 0, "creates": 0, "max_depth": 0}
+    for k in range(16 if thorough else 4):
+        doc = gen_ns_lib(r, "seqns%d" % k) if k % 2 == 0 else \
+            libgen.gen_lib(r, name="seqlib%d" % k, wrap={"wrap_python": True, "wrap_lua": r.random() < 0.5}).todict()
+        recd = record_generation(tmp, k, doc)
+        if recd is None:
+            continue
+        seq_stats["libraries"] += 1
+        for cls, r_ in sorted(recd.items()):
+            seq_stats["wrappers"] += 1
+            seq_stats["ops"] += len(r_["ops"])
+            seq_stats["creates"] += len(r_["created"])
+            depth = cur = 0
+            for o in r_["ops"]:
+                cur += 1 if o[0] == "push" else (-1 if o[0] == "pop" else 0)
+                depth = max(depth, cur)
+            seq_stats["max_depth"] = max(seq_stats["max_depth"], depth)
+            add(seq_request(r_["ops"]), seq_expected(r_), canon_seq, "seq")
+    ctx.note("emitter_sequences", seq_stats)
     for k in range(600 if thorough else 200):
         cmd, dirs, yaml_entries, code, path_arg = gen_main_case(r)
         add(enc_main_case(cmd, dirs, yaml_entries, code), real_main(tmp, k, cmd, dirs, yaml_entries, code, path_arg),
@@ -590,6 +685,8 @@ def norm(line):
 
 SHAPES = ("empty", "one-line", "multi", "blank-inside", "blank-at-end", "blank-only")
 SHAPE_STATS = {}      # "<route>:<shape>" -> count, printed into the evidence notes
+EXT_STATS = {}        # "<yaml key>-key:<file extension>" -> count
+NS_STATS = {}         # shapes of the namespace trees of generated libraries
 FORM_STATS = {}       # "<yaml form>:<shape>" -> count
 
 
@@ -761,9 +858,9 @@ class Lib:
                     files[sub + "/" + fn] = fp.read()
         return rc, out, files, wd
 
-    def write_splicer_file(self, wd_name, lang, blocks, r):
+    def write_splicer_file(self, wd_name, lang, blocks, r, ext=None):
         """A splicer file with junk between blocks; returns its path."""
-        path = os.path.join(self.tmp, "%s%s" % (wd_name, SUFFIX[lang]))
+        path = os.path.join(self.tmp, "%s-%s%s" % (wd_name, lang, ext or SUFFIX[lang]))
         c = r.choice(["//", "!", "  //", "    ! ", "--"])
         with open(path, "w") as fp:
             fp.write("text before the first block is ignored\nsplicer begin not.a.marker.in.column.one\n")
@@ -854,6 +951,60 @@ def check_supplied(ctx, lib, how, files, base_h, supplied, replay):
     return bad
 
 
+def namespace_paths(doc):
+    """[(scope names, flattened?)] of the namespaces declared in a library description."""
+    out = []
+
+    def walk(decls, scope, flat_default):
+        for d in decls or []:
+            if isinstance(d, dict) and isinstance(d.get("decl"), str) and d["decl"].split()[:1] == ["namespace"]:
+                name = d["decl"].split()[1]
+                flat = (d.get("options") or {}).get("F_flatten_namespace", flat_default)
+                out.append((scope + [name], bool(flat)))
+                walk(d.get("declarations"), scope + [name], flat)
+    walk(doc.get("declarations"), [], (doc.get("options") or {}).get("F_flatten_namespace", False))
+    return out
+
+
+def check_module_scope(ctx, libname, files, doc, rp):
+    """A Fortran file is one module, i.e. one scope: its module-level blocks (file_top, module_use, module_top,
+    additional_interfaces, additional_functions) carry the same `namespace.<scope>.` prefix (none for the library
+    module); and every namespace that gets a module of its own has its module_top block under its own scope name."""
+    seen = set()
+    for rel, text in files.items():
+        if lang_of(rel) != "f":
+            continue
+        prefixes = {}
+        for name, _b in parse_blocks(text):
+            seen.add(name)
+            parts = name.split(".")
+            # the module's own blocks only (blocks of functions of flattened namespaces carry the scope name that
+            # happens to be on the stack; not this property's concern)
+            if parts[-1] not in ("file_top", "module_use", "module_top", "additional_interfaces", "additional_functions"):
+                continue
+            if name.startswith("namespace.") and len(parts) == 3:
+                prefixes.setdefault(".".join(parts[:2]), name)
+            elif len(parts) == 1:
+                prefixes.setdefault("", name)
+        ctx.count(1)
+        if len(prefixes) > 1:
+            ctx.fail("names:fortran-module-mixes-scopes:%s" % libname,
+                     "the Fortran module file %s holds blocks of different namespace scopes: %s"
+                     % (rel, sorted(prefixes.values())), dict(rp, file=rel))
+        elif prefixes:
+            ctx.nontrivial("%s:scope:%s" % (libname, rel))
+    if (doc.get("options") or {}).get("wrap_fortran", True) and any(lang_of(r_) == "f" for r_ in files):
+        for scope, flat in namespace_paths(doc):
+            if flat:
+                continue
+            want = "namespace.%s.module_top" % "::".join(scope)
+            ctx.count(1)
+            if want not in seen and any(n.startswith("namespace.") for n in seen):
+                ctx.fail("names:namespace-module-block-missing:%s" % libname,
+                         "namespace %s has a Fortran module of its own but no block %s" % ("::".join(scope), want),
+                         dict(rp, block=want))
+
+
 def func_decls(doc):
     out = []
     for d in doc.get("declarations", []) or []:
@@ -861,6 +1012,43 @@ def func_decls(doc):
                 and not d["decl"].lstrip().startswith(("class", "struct", "namespace", "typedef", "enum", "template")):
             out.append(d)
     return out
+
+
+def gen_ns_lib(r, name):
+    """A generated C++ library whose namespaces nest 2-3 deep, with functions and classes inside namespaces,
+    F_flatten_namespace off or on (globally or for one namespace)."""
+    from tools.gen import libgen
+    cnt = [0]
+
+    def uniq(prefix):
+        cnt[0] += 1
+        return "%s%d" % (prefix, cnt[0])
+
+    def members(depth):
+        out = [libgen.gen_function(r, "c++", uniq("fn"), nargs=r.randrange(0, 3)) for _ in range(r.randrange(0, 3))]
+        if r.random() < 0.45:
+            out.append(libgen.gen_class(r, uniq("Cls")))
+        return out
+
+    def ns(depth, maxdepth):
+        d = {"decl": "namespace %s" % uniq("ns"), "declarations": members(depth)}
+        if depth < maxdepth:
+            kids = [ns(depth + 1, maxdepth) for _ in range(r.randrange(1, 3))]
+            # nested namespaces before or after the namespace's own functions
+            d["declarations"] = kids + d["declarations"] if r.random() < 0.5 else d["declarations"] + kids
+        if r.random() < 0.15:
+            d["options"] = {"F_flatten_namespace": True}
+        return d
+
+    maxdepth = r.choice([2, 3])
+    decls = members(0) + [ns(1, maxdepth) for _ in range(r.randrange(1, 3))]
+    flat = r.random() < 0.25
+    opts = {"wrap_python": r.random() < 0.7, "wrap_lua": False}
+    if flat:
+        opts["F_flatten_namespace"] = True
+    key = "depth%d:%s" % (maxdepth, "flatten" if flat else "modules")
+    NS_STATS[key] = NS_STATS.get(key, 0) + 1
+    return libgen.Lib(name, "c++", decls, opts).todict()
 
 
 def oracle_e2e(ctx, libname, tmp, doc=None):
@@ -890,11 +1078,30 @@ def oracle_e2e(ctx, libname, tmp, doc=None):
                     sup.setdefault(lang, {})[n] = gen_body(r, route)
         return sup
 
-    def files_for(sup, tag):
-        return {lang: lib.write_splicer_file("%s-%s-%d" % (libname, tag, lib.n), lang, sorted(b.items()), r)
-                for lang, b in sup.items()}
+    def files_for(sup, tag, yaml_route=False):
+        """yaml_route: the file is named under a `splicer:` key, so its extension need not match the language
+        (regression/input/example.yaml: `py: [pysplicer.c]`)."""
+        res = {}
+        for lang, b in sup.items():
+            ext = None
+            if yaml_route:
+                ext = r.choice([SUFFIX[lang]] + [e for e in (".c", ".f", ".py", ".lua", ".txt", ".F90", ".hpp") if e != SUFFIX[lang]])
+                k = "%s-key:%s" % (lang, ext)
+                EXT_STATS[k] = EXT_STATS.get(k, 0) + 1
+            res[lang] = lib.write_splicer_file("%s-%s-%d" % (libname, tag, lib.n), lang, sorted(b.items()), r, ext)
+        return res
 
     rp = {"library": libname, "seed": common.seed()}
+    check_module_scope(ctx, libname, base_files, base_doc, rp)
+    # --- every harvested block at once (file-level blocks of every namespace module included), command line
+    supall = bodies_for(1.1, "cmdline-file-all")
+    pall = files_for(supall, "all")
+    rc, out, files0, _ = lib.run(base_doc, cmd_files=list(pall.values()))
+    if rc != 0:
+        ctx.fail("e2e:%s:cmdline-all:run-failed" % libname, "regeneration with a body for every block failed: " + out[-400:], rp)
+    else:
+        check_supplied(ctx, lib, "cmdline-file-all", files0, base_h, supall, dict(rp, supplied="all blocks"))
+        check_module_scope(ctx, libname, files0, base_doc, rp)
     # --- way 1: splicer files on the command line
     sup = bodies_for(0.5, "cmdline-file")
     paths = files_for(sup, "cmd")
@@ -905,7 +1112,7 @@ def oracle_e2e(ctx, libname, tmp, doc=None):
         check_supplied(ctx, lib, "cmdline-file", files1, base_h, sup, dict(rp, supplied=sup))
     # --- way 2: splicer files named in the YAML file
     sup2 = bodies_for(0.5, "yaml-file")
-    paths2 = files_for(sup2, "yaml")
+    paths2 = files_for(sup2, "yaml", True)
     doc = copy.deepcopy(base_doc)
     doc["splicer"] = {lang: [os.path.basename(p)] for lang, p in paths2.items()}
     rc, out, files2, _ = lib.run(doc)       # --path contains the scratch dir? no: files live in lib.tmp
@@ -929,7 +1136,7 @@ def oracle_e2e(ctx, libname, tmp, doc=None):
             which = r.choice([supa, supb, supc, None])
             if which is not None:
                 which.setdefault(lang, {})[n] = gen_body(r, "combined")
-    pa, pb = files_for(supa, "mixa"), files_for(supb, "mixb")
+    pa, pb = files_for(supa, "mixa"), files_for(supb, "mixb", True)
     doc = copy.deepcopy(base_doc)
     doc["splicer"] = {lang: [os.path.basename(p)] for lang, p in pb.items()}
     rc, out, files4, _ = lib.run(doc, cmd_files=list(pa.values()))
@@ -1211,6 +1418,8 @@ def run(ctx):
     thorough = ctx.tier == "thorough"
     SHAPE_STATS.clear()
     FORM_STATS.clear()
+    EXT_STATS.clear()
+    NS_STATS.clear()
     ok = ctx.lean(MODULES, THEOREMS, extra_targets=("drv_splicer",))
     ctx.cov["trusted_base"] = [
         "Lean 4.33.0 kernel; axioms within {propext, Classical.choice, Quot.sound}",
@@ -1246,7 +1455,12 @@ def run(ctx):
         for k in range(ngen):
             g = libgen.gen_lib(rg, name="genlib%d" % k, wrap={"wrap_python": True, "wrap_lua": rg.random() < 0.5})
             oracle_e2e(ctx, "genlib%d" % k, tmp, g.todict())
+        nns = 10 if thorough else 2
+        for k in range(nns):
+            oracle_e2e(ctx, "nslib%d" % k, tmp, gen_ns_lib(rg, "nslib%d" % k))
         ctx.note("generated_libraries", ngen)
+        ctx.note("generated_namespace_libraries", dict(sorted(NS_STATS.items())))
+        ctx.note("yaml_splicer_key_vs_extension", dict(sorted(EXT_STATS.items())))
         ctx.note("body_shapes_by_route", dict(sorted(SHAPE_STATS.items())))
         ctx.note("declaration_yaml_forms", dict(sorted(FORM_STATS.items())))
     finally:
@@ -1271,6 +1485,8 @@ def replay(path):
         for k in range(12):
             g = libgen.gen_lib(rg, name="genlib%d" % k, wrap={"wrap_python": True, "wrap_lua": rg.random() < 0.5})
             gens["genlib%d" % k] = g.todict()
+        for k in range(10):
+            gens["nslib%d" % k] = gen_ns_lib(rg, "nslib%d" % k)
         for name in libs:
             oracle_e2e(ctx, name, tmp, gens.get(name))
     finally:
